@@ -162,7 +162,9 @@ def run(R, tier):
         # by the library itself, in front of the digits.
         import math
         width = 32 if fty == "f32" else 64
-        eng_f = fdai.Engine(P, u, inline=lambda n, r: _resp_helpers(n, r), models=dict(M.FLOAT_MODELS), loop_limit=3, max_paths=8)
+        _fm = dict(M.FOLD_MODELS)
+        _fm.update(M.FLOAT_MODELS)
+        eng_f = fdai.Engine(P, u, inline=lambda n, r: _resp_helpers(n, r), models=_fm, loop_limit=3, max_paths=8)
         tiny = 1e-45 if width == 32 else 5e-324
         big = 3.4028234663852886e38 if width == 32 else 1.7976931348623157e308
         classes = {"nan": [math.nan, -math.nan], "+inf": [math.inf], "-inf": [-math.inf], "-0": [-0.0],
